@@ -305,6 +305,8 @@ package eval
 //   vis(k)   k is a position the evaluator loop can stand on (not an inlined
 //            child of a fast operator)
 //   idxOf(p) index of node pointer p in e.nodes (nodes are pairwise distinct)
+//   kindAt(k), scAt(k), otAt(k)  kind / scIdx / osTop of node k (tied to the node by WF; used wherever a rule
+//            speaks about ANOTHER node, so that instantiating the rule at k creates no new node terms)
 // node kinds (flag & 7): constant=1 variable=2 operator=3 fastOperator=4 cond=5 event=7.
 
 //@ ghost (declare-fun pre (Int) Int)
@@ -312,6 +314,9 @@ package eval
 //@ ghost (declare-fun idxOf (Int) Int)
 //@ ghost (declare-fun dep (Int) Int)
 //@ ghost (declare-fun ext (Int) Int)
+//@ ghost (declare-fun kindAt (Int) Int)
+//@ ghost (declare-fun scAt (Int) Int)
+//@ ghost (declare-fun otAt (Int) Int)
 
 //@ macro (KIND $p) (mod (fld $p flag) 8)
 //@ macro (HASSC $p) (not (= (mod (div (fld $p flag) 8) 4) 0))
@@ -322,24 +327,25 @@ package eval
 //@     (forall ((j Int)) (! (=> (and (<= o j) (< j (+ o n)))
 //@       (let ((k (- j o)) (p (select (arr (fld $e nodes)) j)))
 //@       (let ((kind (KIND p)) (ot (fld p osTop)) (sc (fld p scIdx)) (cc (fld p childCnt)))
-//@         (and (not (= p 0)) (= (idxOf p) k) (<= -1 ot) (< ot m)
+//@         (and (not (= p 0)) (= (idxOf p) k) (= (kindAt k) kind) (= (scAt k) sc) (= (otAt k) ot) (<= -1 ot) (< ot m)
 //@           (=> (or (= kind 2) (= kind 3) (= kind 4)) (is.string (fld p value)))
 //@           (>= (dep k) 0) (>= (ext k) k) (=> (or (= kind 1) (= kind 2) (= kind 3)) (= (ext k) k))
 //@           (=> (vis k) (and (<= 0 (pre k)) (<= (pre k) m)
 //@             (=> (or (= kind 1) (= kind 2)) (and (= (pre k) ot) (<= 0 ot) (SUCC $e n (+ k 1) (+ ot 1))))
 //@             (=> (= kind 3) (and (<= 0 cc) (<= cc (pre k)) (= (- (pre k) cc) ot) (<= 0 ot) (not (= (fld p operator) 0)) (SUCC $e n (+ k 1) (+ ot 1))))
 //@             (=> (= kind 4) (and (< (+ k 2) n) (= (pre k) ot) (<= 0 ot) (not (= (fld p operator) 0)) (SUCC $e n (+ k 3) (+ ot 1)) (= (ext k) (+ k 2)) (not (vis (+ k 1))) (not (vis (+ k 2)))
-//@                  (or (= (KIND (NODEAT $e (+ k 1))) 1) (= (KIND (NODEAT $e (+ k 1))) 2)) (or (= (KIND (NODEAT $e (+ k 2))) 1) (= (KIND (NODEAT $e (+ k 2))) 2))))
+//@                  (or (= (kindAt (+ k 1)) 1) (= (kindAt (+ k 1)) 2)) (or (= (kindAt (+ k 2)) 1) (= (kindAt (+ k 2)) 2))
+//@                  (= (ext (+ k 1)) (+ k 1)) (= (ext (+ k 2)) (+ k 2))))
 //@             (=> (= kind 5) (and (>= (pre k) 1) (not (= (fld p operator) 0))
 //@                  (< (+ k 1) n) (vis (+ k 1)) (= (pre (+ k 1)) (- (pre k) 1))
 //@                  (< k sc) (< sc n) (SUCC $e n (+ sc 1) (+ ot 1))
-//@                  (let ((z (fld (NODEAT $e sc) scIdx)))
-//@                    (=> (= (KIND (NODEAT $e sc)) 5)
-//@                        (and (<= 0 z) (< z n) (= (ext k) z) (<= 0 (fld (NODEAT $e z) osTop)) (< (fld (NODEAT $e z) osTop) m)
-//@                             (SUCC $e n (+ z 1) (+ (fld (NODEAT $e z) osTop) 1)))))))
+//@                  (let ((z (scAt sc)))
+//@                    (=> (= (kindAt sc) 5)
+//@                        (and (<= 0 z) (< z n) (= (ext k) z) (<= 0 (otAt z)) (< (otAt z) m)
+//@                             (SUCC $e n (+ z 1) (+ (otAt z) 1)))))))
 //@             (=> (or (= kind 0) (= kind 6) (= kind 7)) (SUCC $e n (+ k 1) (pre k)))
 //@             (=> (and (<= 1 kind) (<= kind 4) (HASSC p))
-//@                 (or (= sc -1) (and (< (ite (= kind 4) (+ k 2) k) sc) (< sc n) (vis sc) (= (KIND (NODEAT $e sc)) 3))))))))))
+//@                 (or (= sc -1) (and (< (ite (= kind 4) (+ k 2) k) sc) (< sc n) (vis sc) (= (kindAt sc) 3))))))))))
 //@      :pattern ((select (arr (fld $e nodes)) j))))))
 
 //@ macro (LASTEVENT) (select (heap sent.val_S_Event) (old (heap sent.n)))
@@ -639,11 +645,10 @@ package eval
 //@     (forall ((j Int)) (! (=> (and (<= o j) (< j (+ o n)))
 //@       (let ((k (- j o)) (q (select (arr (fld $e parentIdx)) j)))
 //@         (and (<= -1 q) (< q n)
-//@           (=> (and (not (= q -1)) (not (= (KIND (NODEAT $e k)) 7)))
-//@             (let ((pq (NODEAT $e q)))
+//@           (=> (and (not (= q -1)) (not (= (kindAt k) 7)))
 //@               (and (< (dep q) (dep k)) (>= (ext q) (ext k))
-//@                 (=> (= (KIND pq) 5) (and (vis q) (<= 0 (fld pq scIdx)) (< (fld pq scIdx) n) (= (KIND (NODEAT $e (fld pq scIdx))) 5)))
-//@                 (=> (not (= (KIND pq) 5)) (and (vis q) (or (= (KIND pq) 3) (and (= (KIND pq) 4) (or (= k (+ q 1)) (= k (+ q 2)))))))))))))
+//@                 (=> (= (kindAt q) 5) (and (vis q) (<= 0 (scAt q)) (< (scAt q) n) (= (kindAt (scAt q)) 5)))
+//@                 (=> (not (= (kindAt q) 5)) (and (vis q) (or (= (kindAt q) 3) (and (= (kindAt q) 4) (or (= k (+ q 1)) (= k (+ q 2))))))))))))
 //@      :pattern ((select (arr (fld $e parentIdx)) j))))))
 
 //@ func Expr.TryEval C04 C05 C06 C07 C09
